@@ -2,6 +2,7 @@ package wire
 
 import (
 	"bytes"
+	"fmt"
 	"testing"
 
 	"verif.local/sim/core"
@@ -67,6 +68,61 @@ func TestProgramsAreSeeded(t *testing.T) {
 	for i := range a {
 		if a[i] != b[i] {
 			t.Fatal("same seed, different programs")
+		}
+	}
+}
+
+func TestFieldsFindsEveryValue(t *testing.T) {
+	msg := []byte(`{"a":"x\"y", "b":[1,-2.5e3,{"c":null}], "d":{}, "e":true}`)
+	spans := Fields(msg)
+	var got []string
+	for _, sp := range spans {
+		got = append(got, string(sp.Kind)+":"+string(msg[sp.Lo:sp.Hi]))
+	}
+	want := []string{"o:" + string(msg), `s:"x\"y"`, `a:[1,-2.5e3,{"c":null}]`, "n:1", "n:-2.5e3", `o:{"c":null}`, "l:null", "o:{}", "l:true"}
+	if fmt.Sprint(got) != fmt.Sprint(want) {
+		t.Fatalf("spans:\n got %q\nwant %q", got, want)
+	}
+	for _, bad := range []string{``, `{`, `{"a":}`, `[1,]`, `{"a":1}x`, "\x0e\xff\x81", `"abc`} {
+		if Fields([]byte(bad)) != nil {
+			t.Errorf("Fields(%q) found fields in a malformed message", bad)
+		}
+	}
+}
+
+func TestFieldFaults(t *testing.T) {
+	msg := []byte(`{"name":"-PT5M","to":[],"n":7}`)
+	for _, tc := range []struct {
+		f    Fault
+		want string
+	}{
+		{Fault{Kind: FieldTruncate, A: 0, B: 1}, `{"name":"-","to":[],"n":7}`},
+		{Fault{Kind: FieldTruncate, A: 0, B: 0}, `{"name":"","to":[],"n":7}`},
+		{Fault{Kind: FieldLost, A: 0, B: 0}, `{"name":null,"to":[],"n":7}`},
+		{Fault{Kind: FieldLost, A: 0, B: 1}, `{"to":[],"n":7}`},
+		{Fault{Kind: FieldLost, A: 2, B: 1}, `{"name":"-PT5M","to":[]}`},
+		{Fault{Kind: FieldMisdirect, A: 0, B: 2}, `{"name":[],"to":[],"n":7}`},
+		{Fault{Kind: FieldMisdirect, A: 0, B: 0}, string(msg)}, // the document into itself: identity
+		{Fault{Kind: FieldSwap, A: 0, B: 2}, `{"name":7,"to":[],"n":"-PT5M"}`},
+		{Fault{Kind: FieldSwap, A: 1, B: 1}, string(msg)},
+	} {
+		before := string(msg)
+		got := Apply(msg, tc.f, nil)
+		if string(got) != tc.want {
+			t.Errorf("%s: got %s want %s", tc.f, got, tc.want)
+		}
+		if string(msg) != before {
+			t.Fatalf("%s modified its input", tc.f)
+		}
+		if string(got) != before && Fields(got) == nil {
+			t.Errorf("%s: result %s is not well-formed", tc.f, got)
+		}
+	}
+	// no fields, no fault
+	gob := []byte{0x0e, 0xff, 0x81, 0x03}
+	for _, k := range FieldKinds {
+		if got := Apply(gob, Fault{Kind: k, A: 1, B: 2}, nil); string(got) != string(gob) {
+			t.Errorf("%s changed a message without fields", k)
 		}
 	}
 }
